@@ -56,6 +56,8 @@ type stmt struct {
 	locals []string // local binding names (kNamed) or re-export aliases (kReexp); ns name in locals[0] for ns kinds
 	used   []bool   // kNamed: whether the binding is used in a live top-level statement
 	call   bool     // kNamed: call the imported bump() (mutates the target's state)
+	viaImp bool     // kReexp written as `import {a as l} from; export {l as b}` instead of `export {a as b} from`
+	pref   bool     // kReexp: prefer re-exporting counters (export let) and their mutator functions
 }
 
 type mod struct {
@@ -295,6 +297,92 @@ func genDistance(r *Rng) *graphCase {
 	return g
 }
 
+// entry points that re-export (export * and export {..} from, through one or
+// two intermediate modules, also written as import + export) bindings that are
+// declared in modules shared with other entry points, so that the binding
+// lives in another chunk than the re-exporting entry and the entry chunk
+// often has no other use of it
+func genReexport(r *Rng) *graphCase {
+	g := &graphCase{}
+	k := 2 + r.Intn(2)
+	nDeep := 1 + r.Intn(2)
+	nMid := 1 + r.Intn(3)
+	nMid2 := r.Intn(2)
+	for i := 0; i < k; i++ {
+		g.mods = append(g.mods, &mod{id: i + 1, name: fmt.Sprintf("e%d", i), user: true, varKW: "let"})
+		g.user = append(g.user, i+1)
+	}
+	mid0 := k + 1
+	for i := 0; i < nMid; i++ {
+		g.mods = append(g.mods, &mod{id: mid0 + i, name: fmt.Sprintf("mid%d", i), varKW: "let"})
+	}
+	mid20 := mid0 + nMid
+	for i := 0; i < nMid2; i++ {
+		g.mods = append(g.mods, &mod{id: mid20 + i, name: fmt.Sprintf("via%d", i), varKW: "let"})
+	}
+	deep0 := mid20 + nMid2
+	for i := 0; i < nDeep; i++ {
+		g.mods = append(g.mods, &mod{id: deep0 + i, name: fmt.Sprintf("deep%d", i), varKW: []string{"let", "var"}[r.Intn(2)]})
+	}
+	hasStar := func(m *mod) bool {
+		for _, s := range m.stmts {
+			if s.kind == kStar {
+				return true
+			}
+		}
+		return false
+	}
+	reexp := func(from, to int, allowStar bool) {
+		fm := g.m(from)
+		if allowStar && !hasStar(fm) && r.Chance(55) {
+			fm.stmts = append(fm.stmts, stmt{kind: kStar, target: to})
+			return
+		}
+		fm.stmts = append(fm.stmts, stmt{kind: kReexp, target: to, viaImp: r.Chance(40), pref: r.Chance(80)})
+	}
+	// second-level intermediates re-export from a deep module (named: so that ImportsToBind of
+	// the intermediate, not of the entry, resolves the binding)
+	for i := 0; i < nMid2; i++ {
+		reexp(mid20+i, deep0+r.Intn(nDeep), false)
+	}
+	for i := 0; i < nMid; i++ {
+		if nMid2 > 0 && r.Chance(50) {
+			reexp(mid0+i, mid20+r.Intn(nMid2), true)
+		} else {
+			reexp(mid0+i, deep0+r.Intn(nDeep), false)
+		}
+		if r.Chance(25) {
+			reexp(mid0+i, deep0+r.Intn(nDeep), false)
+		}
+	}
+	// every entry re-exports from one intermediate; a deep module is made shared by letting
+	// another entry import it directly (or re-export it too)
+	for e := 1; e <= k; e++ {
+		reexp(e, mid0+r.Intn(nMid), true)
+		if r.Chance(30) {
+			g.m(e).stmts = append(g.m(e).stmts, stmt{kind: kBare, target: mid0 + r.Intn(nMid)})
+		}
+	}
+	for d := 0; d < nDeep; d++ {
+		e := 1 + r.Intn(k)
+		kind := []int{kNamed, kBare, kNsProp, kNamed}[r.Intn(4)]
+		g.m(e).stmts = append(g.m(e).stmts, stmt{kind: kind, target: deep0 + d})
+	}
+	if r.Chance(30) {
+		g.m(1 + r.Intn(k)).dyn = []int{mid0 + r.Intn(nMid)}
+	}
+	for _, m := range g.mods {
+		for i := len(m.stmts) - 1; i > 0; i-- {
+			j := r.Intn(i + 1)
+			m.stmts[i], m.stmts[j] = m.stmts[j], m.stmts[i]
+		}
+	}
+	g.prune()
+	g.fill(r)
+	g.desc = fmt.Sprintf("reexport k=%d mids=%d+%d deep=%d", k, nMid, nMid2, nDeep)
+	return g
+}
+
 // drop files not reachable from the user entry points and renumber
 func (g *graphCase) prune() {
 	seen := map[int]bool{}
@@ -378,6 +466,17 @@ func (g *graphCase) fill(r *Rng) {
 				cnt++
 			case kReexp:
 				pick := pickSome(r, tn, 1+r.Intn(2))
+				if s.pref {
+					var cand []string
+					for _, nm := range tn {
+						if idx := g.resolveExport(t.id, nm).idx; idx == 0 || idx == 1 {
+							cand = append(cand, nm)
+						}
+					}
+					if len(cand) > 0 {
+						pick = pickSome(r, cand, 2+r.Intn(2))
+					}
+				}
 				for _, nm := range pick {
 					al := fmt.Sprintf("r%d_%s_%s", cnt, t.name, sanitize(nm))
 					if r.Chance(15) && !hasKey(m.exports, "x_shared") {
@@ -616,7 +715,16 @@ func (g *graphCase) source(m *mod) string {
 			for i, nm := range s.names {
 				items = append(items, nm+" as "+s.locals[i])
 			}
-			w("export {%s} from \"./%s.js\";\n", strings.Join(items, ", "), t.name)
+			if s.viaImp {
+				var imps, exps []string
+				for i, nm := range s.names {
+					imps = append(imps, nm+" as l_"+s.locals[i])
+					exps = append(exps, "l_"+s.locals[i]+" as "+s.locals[i])
+				}
+				w("import {%s} from \"./%s.js\";\nexport {%s};\n", strings.Join(imps, ", "), t.name, strings.Join(exps, ", "))
+			} else {
+				w("export {%s} from \"./%s.js\";\n", strings.Join(items, ", "), t.name)
+			}
 		case kStar:
 			w("export * from \"./%s.js\";\n", t.name)
 		}
@@ -1054,6 +1162,19 @@ func (b *built) staticChecks() (what, detail string) {
 				return "chunk dynamically imports a file that was not emitted", c.path + " -> " + m[1]
 			}
 		}
+		// every exported local name is declared or imported in the chunk
+		rest := reExport.ReplaceAllString(c.text, " ")
+		for _, m := range reExport.FindAllStringSubmatch(c.text, -1) {
+			if strings.Contains(m[0], " from") {
+				continue
+			}
+			for _, it := range splitItems(m[1]) {
+				re := regexp.MustCompile(`(^|[^\w$.])` + regexp.QuoteMeta(it[0]) + `($|[^\w$])`)
+				if !re.MatchString(rest) {
+					return "chunk exports a name it neither declares nor imports", fmt.Sprintf("%s: export {%s as %s}", c.path, it[0], it[1])
+				}
+			}
+		}
 		// duplicate export aliases are a syntax error
 		seen := map[string]bool{}
 		for _, e := range c.expAll {
@@ -1157,7 +1278,12 @@ async function runJob(job) {
     const nss = [];
     for (const f of job.files) { nss.push((await dyn(f)).namespace); await drain(); }
     for (const k of Object.keys(ctx.__V).sort()) res.views[k] = String(ctx.__V[k]());
-    for (const ns of nss) res.entryViews.push(Object.keys(ns).sort().join(','));
+    const snap = ns => Object.keys(ns).sort().map(k => k + '=' + (typeof ns[k] === 'function' ? 'function' : String(ns[k]))).join(',');
+    for (const ns of nss) res.entryViews.push(snap(ns));
+    // call every exported mutator through the entry namespace, then read the (live) bindings again
+    for (const ns of nss) for (const k of Object.keys(ns).sort()) if (typeof ns[k] === 'function') res.entryViews.push(k + '()=' + String(ns[k]()));
+    for (const ns of nss) res.entryViews.push(snap(ns));
+    for (const k of Object.keys(ctx.__V).sort()) res.views[k + '#2'] = String(ctx.__V[k]());
   } catch (e) { res.err = String(e && e.message || e).split('\n')[0]; }
   res.log = Array.from(ctx.__L, String);
   return res;
@@ -1481,6 +1607,15 @@ func runC10(seed uint64, n int, tier string, outDir string) []*Stats {
 	}
 	for i := 0; i < nDist; i++ {
 		handle(genDistance(r), buildCfg{MinifyIdent: i%4 == 3}, true, i%3 == 0)
+	}
+	// (1c) entry points re-exporting bindings that live in shared chunks
+	nRe := n/2 + 10
+	for i := 0; i < nRe; i++ {
+		cfg := buildCfg{}
+		if i%2 == 1 {
+			cfg = randCfg(r)
+		}
+		handle(genReexport(r), cfg, true, true)
 	}
 	// (2) incidence patterns: bounded-exhaustive in the thorough tier, sampled in quick
 	// A pattern is a k x n incidence matrix; column j (a subset of the entry
